@@ -6,6 +6,7 @@ node straight from the Python AST. We build a CFG, check it, and return a
 """
 
 import ast
+import copy
 import sys
 from dataclasses import dataclass, replace
 from typing import TYPE_CHECKING, ClassVar, cast
@@ -222,7 +223,16 @@ def check_nested_func_def(
             func = ParsedFunctionDef(def_id, func_def.name, func_def, func_ty, None)
             DEF_STORE.register_def(func, None)
             ENGINE.parsed[def_id] = func
-            globals.f_locals[func_def.name] = GuppyDefinition(func)
+            # Make the name resolve to the nested function while checking its body, but
+            # don't write it into the namespace of the enclosing Python frame: For
+            # module-level definitions that is the module's `__dict__`, so the binding
+            # would replace a module-level object of the same name and stay visible to
+            # every definition checked later in the session.
+            globals = copy.copy(globals)
+            globals.f_locals = {
+                **globals.f_locals,
+                func_def.name: GuppyDefinition(func),
+            }
         else:
             # Otherwise, we treat it like a local name
             inputs.append(Variable(func_def.name, func_def.ty, func_def))
